@@ -35,7 +35,7 @@ import (
 )
 
 type MOp struct {
-	Kind    string // acquire | teardown | kill | cleanup | foreignrelease | open | status
+	Kind    string // acquire | teardown | kill | cleanup | foreignrelease | open | status | reconcile
 	Hosts   int    // acquire: bitmask over the three hosts (1..7)
 	FailBit int    // acquire: descriptor index that the offers round does not deploy (-1: all deployed)
 	NonCrit bool   // acquire: that descriptor is non-critical
@@ -508,6 +508,36 @@ func runManager(c MCase) (res vh.Result) {
 					}
 				}
 			})
+		case "reconcile":
+			// the master answers a reconciliation request (after a re-subscription) for the listed tasks: one status update each, with
+			// the state the master has for the task and the reason RECONCILIATION. A task the manager knows must be left alone.
+			mu.Lock()
+			ids := []string{}
+			for i, id := range order {
+				if op.Listed&(1<<(i%10)) != 0 {
+					ids = append(ids, id)
+				}
+			}
+			mu.Unlock()
+			if len(ids) == 0 {
+				continue
+			}
+			classes["reconciliation-answers"] = true
+			for _, id := range ids {
+				mu.Lock()
+				t := known[id]
+				mu.Unlock()
+				st := mesos.TASK_RUNNING
+				if t != nil && t.VerifStatus() != "ACTIVE" {
+					st = mesos.TASK_STAGING
+					classes["reconciliation-answer-for-a-task-not-yet-running"] = true
+				}
+				r := mesos.REASON_RECONCILIATION
+				logf("op %d reconciliation answer for %s: %s", oi, id, st)
+				msg := task.NewTaskStatusMessage(mesos.TaskStatus{TaskID: mesos.TaskID{Value: id}, State: &st, Reason: &r})
+				// (a task the manager no longer knows gets a KILL, which may park like any other KILL call)
+				start(true, func() { _ = m.VerifHandle(msg) })
+			}
 		case "foreignrelease":
 			var a, b *menv
 			cands := []*menv{}
@@ -664,7 +694,7 @@ drain:
 }
 
 func genMOp(t *rapid.T) MOp {
-	op := MOp{Kind: rapid.SampledFrom([]string{"acquire", "acquire", "acquire", "teardown", "teardown", "kill", "cleanup", "cleanup", "foreignrelease", "open", "open", "open", "status", "status"}).Draw(t, "kind")}
+	op := MOp{Kind: rapid.SampledFrom([]string{"acquire", "acquire", "acquire", "teardown", "teardown", "kill", "cleanup", "cleanup", "foreignrelease", "open", "open", "open", "status", "status", "reconcile"}).Draw(t, "kind")}
 	op.Hosts = rapid.IntRange(0, 6).Draw(t, "hosts")
 	op.FailBit = -1
 	if rapid.IntRange(0, 5).Draw(t, "deployFault") == 0 {
@@ -728,6 +758,10 @@ func TestManagerFixed(t *testing.T) {
 	vh.Fixed(t, prop, "manager/kill-and-cleanup-while-another-environment-starts-up", MCase{HoldRun: true, HoldKilled: true, Ops: []MOp{
 		{Kind: "acquire", Hosts: 0, FailBit: -1}, {Kind: "status"}, {Kind: "acquire", Hosts: 5, FailBit: -1},
 		{Kind: "teardown", Env: 0}, {Kind: "status"}, {Kind: "cleanup"}, {Kind: "status"}, {Kind: "status"}, {Kind: "kill", Listed: 1023}}}, runManager)
+	// reconciliation answers (after a re-subscription) for tasks of live environments, one of which has not reported TASK_RUNNING yet
+	vh.Fixed(t, prop, "manager/reconciliation-answers-for-owned-tasks-running-and-starting-up", MCase{HoldRun: true, Ops: []MOp{
+		{Kind: "acquire", Hosts: 0, FailBit: -1}, {Kind: "status"}, {Kind: "acquire", Hosts: 5, FailBit: -1}, {Kind: "reconcile", Listed: 1023}, {Kind: "status"}, {Kind: "status"},
+		{Kind: "reconcile", Listed: 1023}}}, runManager)
 	// a deployment that fails for a critical descriptor leaves its launched tasks unowned; cleanup while another environment is live
 	vh.Fixed(t, prop, "manager/failed-deployment-then-cleanup", MCase{Ops: []MOp{
 		{Kind: "acquire", Hosts: 0, FailBit: -1}, {Kind: "acquire", Hosts: 5, FailBit: 1}, {Kind: "cleanup"}, {Kind: "kill", Listed: 1023}}}, runManager)
